@@ -154,6 +154,33 @@ fn run(ctx: &mut Ctx) {
             ctx.case(&format!("witness/{}", id), |c| check_source(c, &format!("witness/{}", id), text));
         }
     }
+    // extern "go" bindings: every way a package can be referenced only from particular statement forms
+    // (tail calls, branches, match arms, let-bound, nested arguments); the import must survive pruning
+    {
+        let prelude = "extern type Time\nextern type Duration\nextern \"go\" \"time\" unix(secs: int64, nanos: int64) -> Time\nextern \"go\" \"time\" duration(nanos: int32) -> Duration\n";
+        let bodies: [(&str, &str); 10] = [
+            ("discarded-conversion", "fn main() -> unit {\n    let _ = duration(7);\n    let _ = string_println(\"ok\");\n    ()\n}\n"),
+            ("unused-conversion-in-loop", "fn main() -> unit {\n    let k = ref(0);\n    while ref_get(k) < 2 {\n        let d = duration(ref_get(k));\n        let _ = ref_set(k, ref_get(k) + 1);\n    };\n    let _ = string_println(\"ok\");\n    ()\n}\n"),
+            ("tail-call-wrapper", "fn epoch() -> Time { unix(946684800i64, 0i64) }\nfn main() -> unit {\n    let a = epoch();\n    let _ = string_println(\"ok\");\n    ()\n}\n"),
+            ("tail-calls-in-if-branches", "fn pick(c: bool) -> Time { if c { unix(1i64, 0i64) } else { unix(2i64, 0i64) } }\nfn main() -> unit {\n    let a = pick(true);\n    let _ = string_println(\"ok\");\n    ()\n}\n"),
+            ("tail-calls-in-match-arms", "fn span(n: int32) -> Duration { match n { 0 => duration(5), _ => duration(n) } }\nfn main() -> unit {\n    let a = span(3);\n    let _ = string_println(\"ok\");\n    ()\n}\n"),
+            ("let-bound-call", "fn main() -> unit {\n    let a = unix(1i64, 2i64);\n    let _ = string_println(\"ok\");\n    ()\n}\n"),
+            ("discarded-call", "fn main() -> unit {\n    let _ = unix(7i64, 0i64);\n    let _ = string_println(\"ok\");\n    ()\n}\n"),
+            ("call-in-tuple", "fn both() -> (Time, Duration) { (unix(1i64, 2i64), duration(3)) }\nfn main() -> unit {\n    let (a, b) = both();\n    let _ = string_println(\"ok\");\n    ()\n}\n"),
+            ("call-in-closure", "fn main() -> unit {\n    let f = |n: int64| unix(n, 0i64);\n    let d = f(4i64);\n    let _ = string_println(\"ok\");\n    ()\n}\n"),
+            ("call-in-loop", "fn main() -> unit {\n    let k = ref(0);\n    while ref_get(k) < 2 {\n        let d = unix(8i64, 0i64);\n        let _ = ref_set(k, ref_get(k) + 1);\n    };\n    let _ = string_println(\"ok\");\n    ()\n}\n"),
+        ];
+        for (i, (name, body)) in bodies.iter().enumerate() {
+            if ctx.mine(40_000 + i as u64) {
+                let src = format!("{}{}", prelude, body);
+                ctx.case(&format!("extern/{}", name), |c| {
+                    check_source(c, &format!("extern/{}", name), &src);
+                    c.count("extern_templates", 1);
+                    c.nontrivial(hash_str(&src));
+                });
+            }
+        }
+    }
     // generated programs (clean lattice)
     let n = tier.pick(800u64, 60_000u64) / ctx.nshards as u64 + 1;
     let opts = DiffOpts { prop: "C02", vet_is_violation: true, budget: 400_000, print: PrintOpts::default() };
